@@ -1179,6 +1179,10 @@ def oracle_round5_radial(chk, quick):
         elif kind == "float32":                       # single-precision frames; all the flux inside the largest aperture in half of them
             data = (nprng.uniform(0, 1, (size, size)) ** 4).astype("float32")
             if it % 2:
+                if dim < 4:
+                    dim = rng.randint(4, 16)
+                    size = 2 * dim
+                    data = numpy.zeros((size, size), dtype="float32")
                 data[:] = 0
                 data[dim - 1, dim - 1] = 1
                 data[min(dim, size - 1), min(dim, size - 1)] = numpy.float32(1e-8)
@@ -1193,6 +1197,8 @@ def oracle_round5_radial(chk, quick):
             data, layout = _r5_layout(rng, data, ("F", "strided", "reversed", "readonly"))
         fr = rng.uniform(0.001, 0.999)
         cm = ["default", "tuple", "ndarray", "numpy-scalars", "border", "int-ndarray"][it % 6]
+        if kind == "float32" and it % 2:
+            cm = "default"                             # all the flux inside the largest aperture of the default centre
         centre = None
         if cm in ("tuple", "ndarray", "numpy-scalars"):
             centre = [rng.uniform(0, size), rng.uniform(0, size)] if rng.random() < 0.5 else [float(rng.randint(0, size)), float(rng.randint(0, size))]
